@@ -9,12 +9,13 @@ package main
 
 import (
 	"fmt"
-	"hash/fnv"
 	"math"
 	"math/big"
 	"reflect"
 	"sort"
+	"strconv"
 	"strings"
+	"sync"
 	"time"
 
 	wire "github.com/dappledger/AnnChain/gemmill/go-wire"
@@ -61,9 +62,12 @@ func newBuilder(base int, fixed map[string]int, ovPath string, ovAlt int) *build
 }
 
 func h32(s string) uint32 {
-	h := fnv.New32a()
-	h.Write([]byte(s))
-	return h.Sum32()
+	h := uint32(2166136261) // FNV-1a
+	for i := 0; i < len(s); i++ {
+		h ^= uint32(s[i])
+		h *= 16777619
+	}
+	return h
 }
 
 // pick decides which alternative a leaf takes: (index, true) when forced or
@@ -199,7 +203,18 @@ func fillBytes(p []byte, seed uint32) {
 }
 
 // codecFields lists the fields the codec handles: exported, json tag != "-".
+var fieldCache sync.Map
+
 func codecFields(t reflect.Type) []reflect.StructField {
+	if c, ok := fieldCache.Load(t); ok {
+		return c.([]reflect.StructField)
+	}
+	fs := codecFieldsUncached(t)
+	fieldCache.Store(t, fs)
+	return fs
+}
+
+func codecFieldsUncached(t reflect.Type) []reflect.StructField {
 	var fs []reflect.StructField
 	for i := 0; i < t.NumField(); i++ {
 		f := t.Field(i)
@@ -213,7 +228,23 @@ func codecFields(t reflect.Type) []reflect.StructField {
 
 // concreteTypes returns the registered concrete types of an interface type in
 // type-byte order (registry walk at run time), or nil if unregistered.
+type concreteList struct {
+	ts []reflect.Type
+	bs []byte
+}
+
+var concreteCache sync.Map
+
 func concreteTypes(t reflect.Type) ([]reflect.Type, []byte) {
+	if c, ok := concreteCache.Load(t); ok {
+		return c.(concreteList).ts, c.(concreteList).bs
+	}
+	ts, bs := concreteTypesUncached(t)
+	concreteCache.Store(t, concreteList{ts, bs})
+	return ts, bs
+}
+
+func concreteTypesUncached(t reflect.Type) ([]reflect.Type, []byte) {
 	info := wire.GetTypeInfo(t)
 	if !info.IsRegisteredInterface {
 		return nil, nil
@@ -378,7 +409,7 @@ func (b *builder) build(t reflect.Type, path string, depth int) reflect.Value {
 			return v
 		}
 		for i := 0; i < t.Len(); i++ {
-			v.Index(i).Set(b.build(t.Elem(), fmt.Sprintf("%s[%d]", path, i), depth+1))
+			v.Index(i).Set(b.build(t.Elem(), path+"["+strconv.Itoa(i)+"]", depth+1))
 		}
 		return v
 
@@ -395,7 +426,7 @@ func (b *builder) build(t reflect.Type, path string, depth int) reflect.Value {
 			} else {
 				n = []int{4, 20, 0, 1025}[b.base]
 			}
-			b.shape[path] = fmt.Sprintf("bytes-len%d", n)
+			b.shape[path] = "bytes-len" + strconv.Itoa(n)
 			if n == 0 {
 				// nil and empty are one value for the codec (documented
 				// identification); which of the two is emitted depends on the
@@ -424,7 +455,7 @@ func (b *builder) build(t reflect.Type, path string, depth int) reflect.Value {
 			idx = baseIdx
 		}
 		n := lens[idx]
-		b.shape[path] = fmt.Sprintf("slice-len%d", n)
+		b.shape[path] = "slice-len" + strconv.Itoa(n)
 		if n == 0 {
 			if hp%2 == 0 {
 				return v
@@ -434,7 +465,7 @@ func (b *builder) build(t reflect.Type, path string, depth int) reflect.Value {
 		}
 		s := reflect.MakeSlice(t, n, n)
 		for i := 0; i < n; i++ {
-			s.Index(i).Set(b.build(t.Elem(), fmt.Sprintf("%s[%d]", path, i), depth+1))
+			s.Index(i).Set(b.build(t.Elem(), path+"["+strconv.Itoa(i)+"]", depth+1))
 		}
 		v.Set(s)
 		return v
